@@ -15,7 +15,7 @@ Step1(e) == CASE e.a = "Accept" -> Accept(e.kind) [] e.a = "Ready" -> Ready(e.k)
               [] e.a = "Respond" -> Respond(e.k, e.kind)
               [] e.a = "RespondStale" -> \E i \in 1..Len(stale) : stale[i].kind = e.kind /\ stale[i].key = e.key /\ RespondStale(i, IF e.k = 0 THEN "ok" ELSE "reject") [] e.a = "Timeout" -> TimeoutAll [] e.a = "Notify" -> Notify(e.kind, e.k)
               [] e.a = "Subscribe" -> Subscribe(e.kind)
-              [] e.a = "Burst" -> Burst(e.k)
+              [] e.a = "Burst" -> Burst(e.k) [] e.a = "ReadyRace" -> ReadyRace(e.k)
               [] e.a = "Drop" -> Drop [] e.a = "Stop" -> Stop [] OTHER -> FALSE
 TMatch == /\ l < Len(Tr) /\ Tr[l+1].act.a # "init" /\ Tr[l+1].skip = ""
          /\ Step1(Tr[l+1].act) /\ Same(l+1) /\ l' = l + 1 /\ UNCHANGED rej
